@@ -1,5 +1,6 @@
 import MirProofs.Lemmas.Intervals
 import MirProofs.Lemmas.IntervalsMerge
+import MirProofs.Lemmas.IntervalsEvents
 /-!
   C13 — interval pre-processing preserves the annotation it re-expresses.
 
@@ -397,5 +398,228 @@ example : SSorted [(0 : Rat), 1/32, 5/2] ∧ intervalsToBoundaries [((0 : Rat), 
   simp only [SSorted, List.pairwise_cons, List.mem_cons, List.not_mem_nil, or_false, forall_eq_or_imp,
     forall_eq, IsEmpty.forall_iff, implies_true, List.Pairwise.nil, and_true]
   refine ⟨⟨?_, ?_⟩, ?_⟩ <;> decide +kernel
+
+/-! ### `adjust_events`
+
+  `adjustEvents` works on `(time, label)` pairs, so "labels are kept in step with the times" is part of every
+  statement below (the synthetic `__T_MIN` / `__T_MAX` labels are `minLab` / `maxLab`).  `EvSorted`: events in
+  time order, ties allowed.  `hasTime t xs`: `t` is one of the event times. -/
+
+/-- the documented result for `t_min = a ≤ b = t_max`: the events inside `[a, b]` in their order, `a` put in
+    front and `b` appended (with the synthetic labels) exactly when they are not already there -/
+def eventsSpec (xs : List (Rat × L)) (a b : Rat) (minLab maxLab : L) : List (Rat × L) :=
+  (if hasTime a xs then [] else [(a, minLab)]) ++
+    xs.filter (fun x => decide (a ≤ x.1) && decide (x.1 ≤ b)) ++
+    (if hasTime b xs || decide (a = b) then [] else [(b, maxLab)])
+
+/-- `t_min` only: the events `≥ a` in order, `a` in front unless it is an event time -/
+theorem adjust_events_min_spec {xs : List (Rat × L)} {a : Rat} (minLab maxLab : L) (hs : EvSorted xs)
+    (hex : ∃ x ∈ xs, a ≤ x.1) :
+    adjustEvents xs (some a) none minLab maxLab =
+      .ok ((if hasTime a xs then [] else [(a, minLab)]) ++ xs.filter (fun x => decide (a ≤ x.1))) := by
+  rw [adjustEvents_eq]
+  simp only
+  rw [evMin_spec minLab hs hex]
+  rfl
+
+/-- `t_max` only: the events `≤ b` in order, `b` appended unless it is an event time -/
+theorem adjust_events_max_spec {xs : List (Rat × L)} {b : Rat} (minLab maxLab : L) (hs : EvSorted xs)
+    (hex : ∃ x ∈ xs, x.1 ≤ b) :
+    adjustEvents xs none (some b) minLab maxLab =
+      .ok (xs.filter (fun x => decide (x.1 ≤ b)) ++ (if hasTime b xs then [] else [(b, maxLab)])) := by
+  rw [adjustEvents_eq]
+  exact evMax_spec maxLab hs hex
+
+/-- **adjust_events_spec.**  Time-ordered events, `t_min ≤ t_max`, some event reaches `t_min`: the result is
+    exactly the documented one. -/
+theorem adjust_events_spec {xs : List (Rat × L)} {a b : Rat} (minLab maxLab : L) (hs : EvSorted xs)
+    (hab : a ≤ b) (hex : ∃ x ∈ xs, a ≤ x.1) :
+    adjustEvents xs (some a) (some b) minLab maxLab = .ok (eventsSpec xs a b minLab maxLab) := by
+  rw [adjustEvents_eq]
+  simp only
+  rw [evMin_spec minLab hs hex]
+  show evMax b maxLab _ = _
+  have hsF : EvSorted (xs.filter (fun x => decide (a ≤ x.1))) := hs.filter _
+  unfold eventsSpec
+  cases hta : hasTime a xs with
+  | false =>
+    simp only [Bool.false_eq_true, if_false, List.singleton_append]
+    have hs1 : EvSorted ((a, minLab) :: xs.filter (fun x => decide (a ≤ x.1))) := by
+      refine List.pairwise_cons.2 ⟨?_, hsF⟩
+      intro y hy
+      simpa using (List.mem_filter.1 hy).2
+    rw [evMax_spec maxLab hs1 ⟨(a, minLab), List.mem_cons_self, hab⟩]
+    congr 1
+    have h1 : ((a, minLab) :: xs.filter (fun x => decide (a ≤ x.1))).filter (fun x => decide (x.1 ≤ b)) =
+        (a, minLab) :: xs.filter (fun x => decide (a ≤ x.1) && decide (x.1 ≤ b)) := by
+      rw [List.filter_cons, if_pos (by simpa using hab), filter_filter_range]
+    have h2 : hasTime b ((a, minLab) :: xs.filter (fun x => decide (a ≤ x.1))) =
+        (hasTime b xs || decide (a = b)) := by
+      have : hasTime b ((a, minLab) :: xs.filter (fun x => decide (a ≤ x.1))) =
+          (decide (a = b) || hasTime b (xs.filter (fun x => decide (a ≤ x.1)))) := by
+        simp [hasTime]
+      rw [this, hasTime_filter_ge hab, Bool.or_comm]
+    rw [h1, h2]
+  | true =>
+    simp only [if_true, List.nil_append]
+    obtain ⟨x0, hx0, hx0a⟩ := hasTime_iff.1 hta
+    have hex1 : ∃ x ∈ xs.filter (fun x => decide (a ≤ x.1)), x.1 ≤ b :=
+      ⟨x0, List.mem_filter.2 ⟨hx0, by simp [hx0a]⟩, by rw [hx0a]; exact hab⟩
+    rw [evMax_spec maxLab hsF hex1, filter_filter_range, hasTime_filter_ge hab]
+    have h2 : (hasTime b xs || decide (a = b)) = hasTime b xs := by
+      by_cases hab' : a = b
+      · rw [← hab', hta]; rfl
+      · simp [hab']
+    rw [h2]
+
+/-- every time of the result lies in `[t_min, t_max]` -/
+theorem eventsSpec_range {xs : List (Rat × L)} {a b : Rat} (minLab maxLab : L) (hab : a ≤ b) :
+    ∀ x ∈ eventsSpec xs a b minLab maxLab, a ≤ x.1 ∧ x.1 ≤ b := by
+  intro x hx
+  unfold eventsSpec at hx
+  rcases List.mem_append.1 hx with hx | hx
+  · rcases List.mem_append.1 hx with hx | hx
+    · split at hx
+      · cases hx
+      · simp only [List.mem_singleton] at hx; subst hx; exact ⟨le_refl _, hab⟩
+    · simpa using (List.mem_filter.1 hx).2
+  · split at hx
+    · cases hx
+    · simp only [List.mem_singleton] at hx; subst hx; exact ⟨hab, le_refl _⟩
+
+/-- `t_min` and `t_max` are both among the times of the result -/
+theorem eventsSpec_bounds (xs : List (Rat × L)) {a b : Rat} (minLab maxLab : L) (hab : a ≤ b) :
+    hasTime a (eventsSpec xs a b minLab maxLab) = true ∧ hasTime b (eventsSpec xs a b minLab maxLab) = true := by
+  have hA : hasTime a (eventsSpec xs a b minLab maxLab) = true := by
+    rw [hasTime_iff]
+    unfold eventsSpec
+    cases hta : hasTime a xs with
+    | false => exact ⟨(a, minLab), by simp, rfl⟩
+    | true =>
+      obtain ⟨x0, hx0, hx0a⟩ := hasTime_iff.1 hta
+      refine ⟨x0, ?_, hx0a⟩
+      apply List.mem_append_left
+      apply List.mem_append_right
+      exact List.mem_filter.2 ⟨hx0, by simp [hx0a, hab]⟩
+  refine ⟨hA, ?_⟩
+  by_cases hab' : a = b
+  · subst hab'; exact hA
+  · rw [hasTime_iff]
+    unfold eventsSpec
+    cases htb : hasTime b xs with
+    | false => exact ⟨(b, maxLab), by simp [hab'], rfl⟩
+    | true =>
+      obtain ⟨x0, hx0, hx0b⟩ := hasTime_iff.1 htb
+      refine ⟨x0, ?_, hx0b⟩
+      apply List.mem_append_left
+      apply List.mem_append_right
+      exact List.mem_filter.2 ⟨hx0, by simp [hx0b, hab]⟩
+
+/-- the result is time-ordered (so it begins at `t_min` and ends at `t_max`) -/
+theorem eventsSpec_sorted {xs : List (Rat × L)} {a b : Rat} (minLab maxLab : L) (hs : EvSorted xs) (hab : a ≤ b) :
+    EvSorted (eventsSpec xs a b minLab maxLab) := by
+  have hr := eventsSpec_range (xs := xs) minLab maxLab hab
+  unfold eventsSpec at hr ⊢
+  unfold EvSorted
+  rw [List.pairwise_append, List.pairwise_append]
+  refine ⟨⟨?_, hs.filter _, ?_⟩, ?_, ?_⟩
+  · split <;> simp
+  · intro x hx y hy
+    split at hx
+    · cases hx
+    · simp only [List.mem_singleton] at hx; subst hx
+      exact (hr y (List.mem_append_left _ (List.mem_append_right _ hy))).1
+  · split <;> simp
+  · intro x hx y hy
+    split at hy
+    · cases hy
+    · simp only [List.mem_singleton] at hy; subst hy
+      exact (hr x (List.mem_append_left _ hx)).2
+
+/-! #### the quirk: no event reaches `t_min`
+
+  Docstring: "Any event times outside of the specified range will be removed."  The code slices from the first
+  event `≥ t_min` only `if len(first_idx) > 0`; when NO event reaches `t_min` nothing is removed and (the first
+  event being below `t_min`) `t_min` is not added either. -/
+
+/-- as the docstring states it (time-ordered, non-empty events, `t_min ≤ t_max`) — false of the code -/
+def adjust_events_range_full_statement : Prop :=
+  ∀ (xs : List (Rat × String)) (a b : Rat) (out : List (Rat × String)), EvSorted xs → xs ≠ [] → a ≤ b →
+    adjustEvents xs (some a) (some b) "__T_MIN" "__T_MAX" = .ok out → ∀ x ∈ out, a ≤ x.1 ∧ x.1 ≤ b
+
+theorem adjust_events_range_full_statement_false : ¬ adjust_events_range_full_statement := by
+  intro h
+  have := h [((1 : Rat), "x")] 2 3 [((1 : Rat), "x"), (3, "__T_MAX")] (by simp [EvSorted]) (by simp)
+    (by decide +kernel) (by decide +kernel) ((1 : Rat), "x") (by simp)
+  exact absurd this.1 (by decide +kernel)
+
+/-- true whenever some event reaches `t_min` -/
+theorem adjust_events_range_partial {xs out : List (Rat × L)} {a b : Rat} {minLab maxLab : L} (hs : EvSorted xs)
+    (hab : a ≤ b) (hex : ∃ x ∈ xs, a ≤ x.1) (ho : adjustEvents xs (some a) (some b) minLab maxLab = .ok out) :
+    ∀ x ∈ out, a ≤ x.1 ∧ x.1 ≤ b := by
+  rw [adjust_events_spec minLab maxLab hs hab hex] at ho
+  cases ho
+  exact eventsSpec_range minLab maxLab hab
+
+/-- what the code does instead (any order): every event is below `t_min` ⇒ all of them are kept, `t_min` is
+    not added; with `t_max ≥ t_min` only `t_max` is appended -/
+theorem adjust_events_none_reach {xs : List (Rat × L)} {a : Rat} (minLab maxLab : L) (hne : xs ≠ [])
+    (hall : ∀ x ∈ xs, x.1 < a) :
+    adjustEvents xs (some a) none minLab maxLab = .ok xs ∧
+    ∀ b, a ≤ b → adjustEvents xs (some a) (some b) minLab maxLab = .ok (xs ++ [(b, maxLab)]) := by
+  constructor
+  · rw [adjustEvents_eq]
+    simp only
+    rw [evMin_none_reach minLab hne hall]
+    rfl
+  · intro b hab
+    rw [adjustEvents_eq]
+    simp only
+    rw [evMin_none_reach minLab hne hall]
+    exact evMax_all_below maxLab hne (fun x hx => lt_of_lt_of_le (hall x hx) hab)
+
+/-- no events at all: `events[0]` / `events[-1]` raise `IndexError` as soon as a bound is given -/
+theorem adjust_events_empty_raises (a : Rat) (t : Option Rat) (minLab maxLab : L) :
+    adjustEvents ([] : List (Rat × L)) (some a) t minLab maxLab = .error .indexError ∧
+    adjustEvents ([] : List (Rat × L)) none (some a) minLab maxLab = .error .indexError :=
+  ⟨rfl, rfl⟩
+
+/-- `t_max` only, first event (hence, for time-ordered events, every event) after it: the slice is empty and
+    `events[-1]` raises `IndexError` (the docstring would have `[t_max]`) -/
+theorem adjust_events_max_raises {xs : List (Rat × L)} {b : Rat} (minLab maxLab : L)
+    (h : ∀ x, xs.head? = some x → b < x.1) :
+    adjustEvents xs none (some b) minLab maxLab = .error .indexError := by
+  rw [adjustEvents_eq]
+  exact evMax_raises maxLab h
+
+/-- an inverted range (`t_max < t_min`, some event reaching `t_min`) leaves nothing: `IndexError` -/
+theorem adjust_events_inverted_raises {xs : List (Rat × L)} {a b : Rat} (minLab maxLab : L) (hs : EvSorted xs)
+    (hba : b < a) (hex : ∃ x ∈ xs, a ≤ x.1) :
+    adjustEvents xs (some a) (some b) minLab maxLab = .error .indexError := by
+  rw [adjustEvents_eq]
+  simp only
+  rw [evMin_spec minLab hs hex]
+  apply evMax_raises
+  intro x hx
+  have hm := List.mem_of_mem_head? hx
+  rcases List.mem_append.1 hm with hm | hm
+  · split at hm
+    · cases hm
+    · simp only [List.mem_singleton] at hm; subst hm; exact hba
+  · have : a ≤ x.1 := by simpa using (List.mem_filter.1 hm).2
+    linarith
+
+/-- non-vacuity: both bounds missing / both present / `t_min = t_max` / the quirk / the exceptions -/
+example :
+    let xs : List (Rat × String) := [(1, "a"), (2, "b"), (2, "c"), (4, "d")]
+    EvSorted xs ∧
+    adjustEvents xs (some (3/2)) (some 3) "m" "M" = .ok [(3/2, "m"), (2, "b"), (2, "c"), (3, "M")] ∧
+    eventsSpec xs (3/2) 3 "m" "M" = [(3/2, "m"), (2, "b"), (2, "c"), (3, "M")] ∧
+    adjustEvents xs (some 1) (some 4) "m" "M" = .ok xs ∧
+    adjustEvents xs (some 3) (some 3) "m" "M" = .ok [(3, "m")] ∧
+    adjustEvents xs (some 5) (some 6) "m" "M" = .ok (xs ++ [(6, "M")]) ∧
+    adjustEvents xs (some 3) (some 2) "m" "M" = .error .indexError := by
+  refine ⟨by simp [EvSorted]; decide +kernel, ?_⟩
+  decide +kernel
 
 end Mir.C13
